@@ -1,6 +1,7 @@
 package centrifuge
 
 import (
+	"context"
 	"math/rand"
 	"strconv"
 	"testing"
@@ -42,10 +43,25 @@ type c02Step struct {
 	RaceOut []c17Out  `json:"race_outs,omitempty"`
 	HOut    []c17Out  `json:"handler_outs,omitempty"`
 	EpF     uint64    `json:"follower_ep,omitempty"` // pair step: epoch presented by the follower
+	Push    *c02Push  `json:"push,omitempty"`        // server-side steps: the Subscribe push / returned error
+	Deliv   [][2]uint64 `json:"delivered,omitempty"` // server-side steps: publications of the channel written to the transport
 	ResF    *c02Res   `json:"follower_res,omitempty"`
 	Full    *c17Out   `json:"full,omitempty"`
 	Full2   *c17Out   `json:"full_after,omitempty"`
 	Res     *c02Res   `json:"res,omitempty"`
+}
+
+type c02Push struct {
+	Err uint64 `json:"err,omitempty"`
+	Off uint64 `json:"off"`
+	Ep  uint64 `json:"ep"`
+}
+
+func c02CoqPush(p *c02Push) string {
+	if p.Err != 0 {
+		return vApp("PErr", vN(p.Err))
+	}
+	return vApp("PSub", vN(p.Off), vN(p.Ep))
 }
 
 type c02Pub struct {
@@ -83,6 +99,15 @@ func c02CoqStep(s c02Step) string {
 	case "stream":
 		return vApp("TStream", vN(uint64(s.Ch)), vN(s.Off), vN(s.Ep), vBool(s.Reject), c02CoqIDs(s.Filt),
 			c02CoqPubs(s.Race), c17CoqOuts(s.RaceOut), c17CoqOut(*s.Full), c02CoqRes(s.Res))
+	case "sstream":
+		return vApp("TSrvStream", vN(uint64(s.Ch)), vN(s.Off), vN(s.Ep), c02CoqIDs(s.Filt), c17CoqOut(*s.Full), c02CoqPush(s.Push), c17CoqItems(s.Deliv))
+	case "scache":
+		h := "HNo"
+		if s.Handler == "populate" {
+			h = vApp("HPopulate", c02CoqPubs(s.HPubs))
+		}
+		return vApp("TSrvCache", vN(uint64(s.Ch)), vN(s.Off), vN(s.Ep), vBool(s.UseS), c02CoqIDs(s.Filt), h, c17CoqOuts(s.HOut),
+			c17CoqOut(*s.Full), c17CoqOut(*s.Full2), c02CoqPush(s.Push), c17CoqItems(s.Deliv))
 	case "pair":
 		return vApp("TPair", vN(uint64(s.Ch)), vN(s.Off), vN(s.Ep), vN(s.EpF), c02CoqIDs(s.Filt), c17CoqOut(*s.Full), c02CoqRes(s.Res), c02CoqRes(s.ResF))
 	default:
@@ -119,7 +144,7 @@ type c02Run struct {
 	mark  int
 	pubs  map[uint64][2]bool // id -> (server-visible, client-visible)
 	// counters
-	recTrue, recFalse, errs, withPubs, filteredOut, populated, raced, pairs, populatedFiltered int
+	recTrue, recFalse, errs, withPubs, filteredOut, populated, raced, pairs, populatedFiltered, serverSide, serverLost int
 	key                                                      string
 }
 
@@ -293,6 +318,95 @@ func (c *c02Run) subscribe(t testing.TB, st c02Step) {
 	c.steps = append(c.steps, st)
 }
 
+// serverSubscribe runs a server-side Client.Subscribe with RecoverSince (or AutoCacheRecover) on a fresh
+// client whose transport output is captured, and records the Subscribe push and any publication written.
+func (c *c02Run) serverSubscribe(t testing.TB, st c02Step) {
+	sc := c.sc
+	sc.handler, sc.hpubs, sc.hch, sc.hran, sc.houts = st.Handler, st.HPubs, st.Ch, 0, nil
+	st.Full = c.fullRead(st.Ch)
+	ctx, cancelFn := context.WithCancel(context.Background())
+	transport := newTestTransport(cancelFn)
+	sink := make(chan []byte, 1024)
+	transport.setSink(sink)
+	ctx = SetCredentials(ctx, &Credentials{UserID: "u1"})
+	cl, err := newClient(ctx, c.node, transport)
+	if err != nil {
+		panic(err)
+	}
+	connectClientV2(t, cl)
+	opts := SubscribeOptions{EnableRecovery: true, EnablePositioning: true, RecoveryMode: RecoveryModeStream, AutoCacheRecover: st.Auto}
+	if st.Kind == "scache" {
+		opts.RecoveryMode = RecoveryModeCache
+	}
+	if st.UseS {
+		opts.ServerTagsFilter = &FilterNode{Key: "s", Cmp: "eq", Val: "1"}
+	}
+	if !st.Auto {
+		opts.RecoverSince = &StreamPosition{Offset: st.Off, Epoch: c.env.epochString(st.Ep)}
+	}
+	name := c17ChName(st.Ch)
+	serr := cl.Subscribe(name, func(o *SubscribeOptions) { *o = opts })
+	synctest.Wait()
+	push := &c02Push{}
+	if serr != nil {
+		push.Err = 9000
+		if e, ok := serr.(*Error); ok {
+			push.Err = uint64(e.Code)
+		}
+	} else {
+		push.Err = 9003 // no subscribe push seen
+	}
+drain:
+	for {
+		select {
+		case data := <-sink:
+			dec := protocol.NewJSONReplyDecoder(data)
+			for {
+				rep, derr := dec.Decode()
+				if derr != nil || rep == nil {
+					break
+				}
+				if rep.Push == nil || rep.Push.Channel != name {
+					continue
+				}
+				if sub := rep.Push.Subscribe; sub != nil && serr == nil {
+					push = &c02Push{Off: sub.Offset, Ep: c.env.epochIndex(sub.Epoch)}
+				}
+				if pub := rep.Push.Pub; pub != nil {
+					st.Deliv = append(st.Deliv, [2]uint64{pub.Offset, c17ParseID(pub.Data)})
+				}
+			}
+		default:
+			break drain
+		}
+	}
+	st.Push = push
+	st.HOut = sc.houts
+	if st.Handler == "populate" && sc.hran > 0 {
+		c.populated++
+	}
+	c.mark = len(c.env.Ops)
+	_ = cl.close(DisconnectForceNoReconnect)
+	st.Filt = c.filteredIDs(st.UseS, false)
+	if st.Kind == "scache" {
+		st.Full2 = c.fullRead(st.Ch)
+	}
+	c.serverSide++
+	if st.Kind == "sstream" && push.Err == 0 && push.Off < st.Full.Off {
+		filtered := map[uint64]bool{}
+		for _, id := range st.Filt {
+			filtered[id] = true
+		}
+		for _, it := range st.Full.Items {
+			if it[0] > push.Off && !filtered[it[1]] {
+				c.serverLost++ // publications after the announced offset exist and were not delivered
+				break
+			}
+		}
+	}
+	c.steps = append(c.steps, st)
+}
+
 // pair runs two overlapping stream recoveries from the same offset: the leader (current epoch) is
 // held inside its Broker.History call until the follower (another epoch string) has finished or is
 // blocked (it would be if it shared the leader's single-flight call).
@@ -328,7 +442,7 @@ func c02Case(t *testing.T, w *verifW, i int, cache bool) (*c02Run, int) {
 	lim := c17Pick(r, 0, 0, 1, 2, 3, 5)
 	metaIdx := r.Intn(4)
 	singleFlight := r.Intn(2) == 0
-	corpus := cache && i < 3
+	corpus := (cache && i < 3) || (!cache && i < 1)
 	if corpus {
 		lim, metaIdx = 0, 2
 	}
@@ -339,8 +453,18 @@ func c02Case(t *testing.T, w *verifW, i int, cache bool) (*c02Run, int) {
 		run.env, run.node = c17NewNodeEnv(cfg, metaIdx == 2, c02Setup(run.sc))
 		run.sc.env = run.env
 		defer func() { c17CloseNode(run.node) }()
-		if corpus {
+		if corpus && cache {
 			c03Corpus(t, run, i)
+			return
+		}
+		if corpus {
+			// server-side Subscribe with RecoverSince: publications 2 and 3 exist after the requested offset 1
+			for id := uint64(1); id <= 3; id++ {
+				run.pubs[id] = [2]bool{true, true}
+				run.base(c17Op{Kind: "pub", Ch: 0, ID: id, P: &c17Popts{Size: 5, TTL: 60000, Tags: c02Tags(true, true)}})
+			}
+			run.serverSubscribe(t, c02Step{Kind: "sstream", Ch: 0, Off: 1, Ep: 1, Handler: "no"})
+			run.subscribe(t, c02Step{Kind: "stream", Ch: 0, Off: 1, Ep: 1}) // the client-side reply carries them
 			return
 		}
 		c02RandomCase(t, r, run, cache)
@@ -433,6 +557,24 @@ func c02RandomCase(t testing.TB, r *rand.Rand, run *c02Run, cache bool) {
 				run.pair(t, st)
 				continue
 			}
+			if r.Intn(7) == 0 {
+				// server-side Client.Subscribe with RecoverSince / AutoCacheRecover (no client filter, no flag)
+				st.UseC = false
+				st.Kind = "sstream"
+				st.Handler = "no"
+				if cache {
+					st.Kind = "scache"
+					if r.Intn(4) == 0 {
+						st.Auto, st.Off, st.Ep = true, 0, 0
+					}
+					if r.Intn(3) == 0 {
+						st.Handler = "populate"
+						st.HPubs = genPubs(ch, 1+r.Intn(2))
+					}
+				}
+				run.serverSubscribe(t, st)
+				continue
+			}
 			if r.Intn(4) == 0 {
 				st.Race = genPubs(ch, 1+r.Intn(2))
 			}
@@ -511,8 +653,18 @@ func TestVerifC02(t *testing.T) {
 		totals["error_replies"] += run.errs
 		totals["with_publications"] += run.withPubs
 		totals["raced_subscribes"] += run.raced
+		totals["server_side_subscribes"] += run.serverSide
 		totals["overlapping_pairs"] += run.pairs
-		c02Emit(w, i, run, lim, class, run.recTrue > 0 && (run.recFalse > 0 || run.errs > 0) && run.withPubs > 0, "")
+		totals["server_side_subscribes"] += run.serverSide
+		totals["server_side_lost_publications"] += run.serverLost
+		key := ""
+		if run.serverLost > 0 {
+			// known deviation (C01 finding of the same name): server-side Subscribe with RecoverSince announces the
+			// requested offset but the push carries no recovered publications
+			key = "serverside-recover-since"
+			class += "/" + key
+		}
+		c02Emit(w, i, run, lim, class, run.recTrue > 0 && (run.recFalse > 0 || run.errs > 0) && run.withPubs > 0, key)
 	}
 	for k, v := range totals {
 		w.Extra[k] = v
@@ -596,6 +748,7 @@ func TestVerifC03(t *testing.T) {
 		totals["handler_populated"] += run.populated
 		totals["handler_populated_with_filters"] += run.populatedFiltered
 		totals["raced_subscribes"] += run.raced
+		totals["server_side_subscribes"] += run.serverSide
 		c02Emit(w, i, run, lim, class, run.recTrue > 0 && run.recFalse > 0 && run.withPubs > 0, key)
 	}
 	for k, v := range totals {
